@@ -1,12 +1,576 @@
-//! C06: harness module (stub — not built yet)
-#![allow(dead_code, unused_imports, unused_variables)]
+//! C06: real des simulations (feature `async`) whose single module runs scripted tokio tasks.
+#![allow(unused_imports, dead_code)]
+//!
+//! Script lines (objects are named by tag, so lines survive deletion):
+//!   task <tag> <rt|loc> <ins> <ins> ...     a task program; `rt` = tokio::spawn, `loc` = tokio::task::spawn_local
+//!   ev <time_ns> <ins> <ins> ...            a message delivered to the module at absolute time <time_ns>;
+//!                                           the (synchronous) handler executes the instructions (s / w only)
+//!   run                                     run the simulation; the transcript answer carries everything observed
+//! Instructions (`*n` suffix = repeat n times):
+//!   s<T>  spawn task T            w<K>  wake condition K once     a<K>  await condition K
+//!   y     tokio::task::yield_now().await                          j<T>  await the JoinHandle of task T
+//! Condition K is a real tokio primitive chosen by K % 3:
+//!   0 Semaphore (wake = add_permits(1), await = acquire().await + forget)
+//!   1 mpsc::unbounded_channel (wake = send(()), await = recv().await)
+//!   2 Notify (wake = notify_one(), await = notified().await)
+//! Every task records (SimTime::now(), tag) when it is first polled and after every await.
+//!
+//! Transcript:  run -> L=<n> E=<n> C=<n> res=<ok|err|panic> log=<t>:<tag>,<tag>;<t>:<tag>...
+//!   log = the global sequence of records, grouped by observed time (records made during at_sim_end or later
+//!   are dropped: they are "never" as far as simulated time is concerned);
+//!   L / E / C = the *measured* budgets of the executor (observed through the order of the records): how many of
+//!   2000 simultaneously ready spawn_local tasks one LocalSet tick polls before the runtime's tasks get their
+//!   turn, how many of 2000 ready tokio::spawn tasks the runtime polls before the LocalSet is ticked again, and
+//!   how many of 1000 available mpsc messages one poll receives before it is forced to yield.
 use crate::rng::Rng;
 use crate::util::{cases, guarded, hval};
+use des::prelude::*;
+use std::collections::HashMap;
+use std::fmt::Write;
+use std::future::Future;
+use std::pin::Pin;
+use std::sync::atomic::{AtomicBool, Ordering};
+use std::sync::{Arc, Mutex, OnceLock};
+use std::time::Duration;
+use tokio::sync::{mpsc, Notify, Semaphore};
+use tokio::task::JoinHandle;
 
-pub fn gen(_seed: u64, _count: usize, _thorough: bool) -> String {
-    String::new()
+#[derive(Clone, Copy, Debug)]
+enum Ins {
+    Spawn(u32),
+    Wake(u32),
+    Wait(u32),
+    Yield,
+    Join(u32),
 }
 
-pub fn exec(_input: &str) -> String {
-    String::new()
+fn parse_ins(tok: &str, out: &mut Vec<Ins>) {
+    let (body, rep) = match tok.split_once('*') {
+        Some((b, r)) => (b, r.parse::<usize>().unwrap_or(1).min(100_000)),
+        None => (tok, 1),
+    };
+    if body.is_empty() || !body.is_ascii() {
+        return;
+    }
+    let (op, arg) = body.split_at(1);
+    let n = arg.parse::<u32>().ok();
+    let ins = match (op, n) {
+        ("s", Some(n)) => Ins::Spawn(n),
+        ("w", Some(n)) => Ins::Wake(n),
+        ("a", Some(n)) => Ins::Wait(n),
+        ("j", Some(n)) => Ins::Join(n),
+        ("y", None) if arg.is_empty() => Ins::Yield,
+        _ => return,
+    };
+    for _ in 0..rep {
+        out.push(ins);
+    }
+}
+
+enum Cond {
+    Sem(Semaphore),
+    Chan(mpsc::UnboundedSender<()>, Mutex<Option<mpsc::UnboundedReceiver<()>>>),
+    Note(Notify),
+}
+
+struct World {
+    progs: HashMap<u32, (bool, Vec<Ins>)>,
+    conds: HashMap<u32, Cond>,
+    started: Mutex<HashMap<u32, Option<JoinHandle<()>>>>,
+    log: Mutex<Vec<(u64, u32)>>,
+    ended: AtomicBool,
+}
+
+fn now_ns() -> u64 {
+    SimTime::now().as_nanos() as u64
+}
+
+impl World {
+    fn record(&self, tag: u32) {
+        if !self.ended.load(Ordering::SeqCst) {
+            self.log.lock().unwrap().push((now_ns(), tag));
+        }
+    }
+
+    fn wake(&self, k: u32) {
+        match self.conds.get(&k) {
+            Some(Cond::Sem(s)) => s.add_permits(1),
+            Some(Cond::Chan(tx, _)) => {
+                let _ = tx.send(());
+            }
+            Some(Cond::Note(n)) => n.notify_one(),
+            None => {}
+        }
+    }
+
+    fn spawn(self: &Arc<Self>, t: u32) {
+        let Some((loc, _)) = self.progs.get(&t) else {
+            return;
+        };
+        if self.started.lock().unwrap().contains_key(&t) {
+            return;
+        }
+        let fut = run_task(self.clone(), t);
+        let h = if *loc {
+            tokio::task::spawn_local(fut)
+        } else {
+            tokio::spawn(fut)
+        };
+        self.started.lock().unwrap().insert(t, Some(h));
+    }
+
+    fn exec_sync(self: &Arc<Self>, prog: &[Ins]) {
+        for ins in prog {
+            match *ins {
+                Ins::Spawn(t) => self.spawn(t),
+                Ins::Wake(k) => self.wake(k),
+                _ => {}
+            }
+        }
+    }
+}
+
+async fn wait(w: &Arc<World>, k: u32) {
+    match w.conds.get(&k) {
+        Some(Cond::Sem(s)) => {
+            if let Ok(p) = s.acquire().await {
+                p.forget();
+            }
+        }
+        Some(Cond::Chan(_, slot)) => {
+            let rx = slot.lock().unwrap().take();
+            if let Some(mut rx) = rx {
+                let _ = rx.recv().await;
+                *slot.lock().unwrap() = Some(rx);
+            } else {
+                std::future::pending::<()>().await;
+            }
+        }
+        Some(Cond::Note(n)) => n.notified().await,
+        None => std::future::pending::<()>().await,
+    }
+}
+
+fn run_task(w: Arc<World>, tag: u32) -> Pin<Box<dyn Future<Output = ()> + Send>> {
+    Box::pin(async move {
+        w.record(tag);
+        let prog = w.progs.get(&tag).map(|p| p.1.clone()).unwrap_or_default();
+        for ins in prog {
+            match ins {
+                Ins::Spawn(t) => w.spawn(t),
+                Ins::Wake(k) => w.wake(k),
+                Ins::Wait(k) => {
+                    wait(&w, k).await;
+                    w.record(tag);
+                }
+                Ins::Yield => {
+                    tokio::task::yield_now().await;
+                    w.record(tag);
+                }
+                Ins::Join(t) => {
+                    let h = w.started.lock().unwrap().get_mut(&t).and_then(|h| h.take());
+                    match h {
+                        Some(h) => {
+                            let _ = h.await;
+                        }
+                        None => std::future::pending::<()>().await,
+                    }
+                    w.record(tag);
+                }
+            }
+        }
+    })
+}
+
+struct Node {
+    w: Arc<World>,
+    events: Arc<Vec<Vec<Ins>>>,
+}
+
+impl Module for Node {
+    fn handle_message(&mut self, msg: Message) {
+        let id = msg.header().id as usize;
+        if let Some(prog) = self.events.get(id) {
+            self.w.exec_sync(prog);
+        }
+    }
+
+    fn at_sim_end(&mut self) -> Result<(), RuntimeError> {
+        self.w.ended.store(true, Ordering::SeqCst);
+        Ok(())
+    }
+}
+
+struct Script {
+    tasks: Vec<(u32, bool, Vec<Ins>)>,
+    events: Vec<(u64, Vec<Ins>)>,
+}
+
+fn parse(body: &[String]) -> (Script, bool) {
+    let mut s = Script { tasks: Vec::new(), events: Vec::new() };
+    let mut run = false;
+    for line in body {
+        let toks: Vec<&str> = line.split_whitespace().collect();
+        match toks.first().copied() {
+            Some("task") if toks.len() >= 3 => {
+                let Some(tag) = toks[1].parse::<u32>().ok() else { continue };
+                let loc = toks[2] == "loc";
+                let mut prog = Vec::new();
+                for t in &toks[3..] {
+                    parse_ins(t, &mut prog);
+                }
+                s.tasks.push((tag, loc, prog));
+            }
+            Some("ev") if toks.len() >= 2 => {
+                let Some(t) = toks[1].parse::<u64>().ok() else { continue };
+                let mut prog = Vec::new();
+                for t in &toks[2..] {
+                    parse_ins(t, &mut prog);
+                }
+                s.events.push((t, prog));
+            }
+            Some("run") => run = true,
+            _ => {}
+        }
+    }
+    (s, run)
+}
+
+/// run one scripted simulation on the real des runtime; returns (result, log)
+fn simulate(s: &Script) -> (&'static str, Vec<(u64, u32)>) {
+    let mut progs = HashMap::new();
+    let mut conds = HashMap::new();
+    let mut note = |prog: &Vec<Ins>| {
+        for ins in prog {
+            if let Ins::Wake(k) | Ins::Wait(k) = *ins {
+                conds.entry(k).or_insert_with(|| match k % 3 {
+                    0 => Cond::Sem(Semaphore::new(0)),
+                    1 => {
+                        let (tx, rx) = mpsc::unbounded_channel();
+                        Cond::Chan(tx, Mutex::new(Some(rx)))
+                    }
+                    _ => Cond::Note(Notify::new()),
+                });
+            }
+        }
+    };
+    for (tag, loc, prog) in &s.tasks {
+        note(prog);
+        progs.entry(*tag).or_insert((*loc, prog.clone()));
+    }
+    for (_, prog) in &s.events {
+        note(prog);
+    }
+    let w = Arc::new(World {
+        progs,
+        conds,
+        started: Mutex::new(HashMap::new()),
+        log: Mutex::new(Vec::new()),
+        ended: AtomicBool::new(false),
+    });
+    let events: Arc<Vec<Vec<Ins>>> = Arc::new(s.events.iter().map(|e| e.1.clone()).collect());
+    let w2 = w.clone();
+    let times: Vec<u64> = s.events.iter().map(|e| e.0).collect();
+    let res = guarded(move || {
+        let mut sim = Sim::new(());
+        sim.node("m", Node { w: w2, events });
+        let gate = sim.gate("m", "in");
+        let mut rt = Builder::seeded(1).quiet().build(sim.freeze());
+        for (i, t) in times.iter().enumerate() {
+            rt.add_message_onto(
+                gate.clone(),
+                Message::default().id(i as u16),
+                SimTime::from_duration(Duration::from_nanos(*t)),
+            );
+        }
+        rt.run().is_ok()
+    });
+    w.ended.store(true, Ordering::SeqCst);
+    // break the Arc cycles World -> JoinHandle -> task -> World
+    w.started.lock().unwrap().clear();
+    let log = std::mem::take(&mut *w.log.lock().unwrap());
+    let r = match res {
+        Ok(true) => "ok",
+        Ok(false) => "err",
+        Err(_) => "panic",
+    };
+    (r, log)
+}
+
+/// measured effective budgets (L, E, C), see the module doc
+fn budgets() -> (usize, usize, usize) {
+    static B: OnceLock<(usize, usize, usize)> = OnceLock::new();
+    *B.get_or_init(|| {
+        // L: one runtime task spawned first, then 2000 local tasks: the LocalSet tick comes first, so the number of
+        //    local tasks recorded before the runtime task is the tick budget
+        let s = Script {
+            tasks: (0..=2000u32).map(|i| (i, i != 0, vec![])).collect(),
+            events: vec![(1000, (0..=2000u32).map(Ins::Spawn).collect()), (1_000_000_000, vec![])],
+        };
+        let (_, log) = simulate(&s);
+        let l = log.iter().take_while(|e| e.1 != 0).count();
+        // E: a local task 0 waits for condition 3; 2000 runtime tasks become ready at once, the first one wakes
+        //    condition 3: the local task continues when the runtime loop gives way to the next LocalSet tick
+        let mut tasks: Vec<(u32, bool, Vec<Ins>)> = vec![(0, true, vec![Ins::Wait(3)]), (1, false, vec![Ins::Wake(3)])];
+        tasks.extend((2..=2000u32).map(|i| (i, false, vec![])));
+        let s = Script {
+            tasks,
+            events: vec![(1000, vec![Ins::Spawn(0)]), (2000, (1..=2000u32).map(Ins::Spawn).collect()), (1_000_000_000, vec![])],
+        };
+        let (_, log) = simulate(&s);
+        let e = log.iter().skip(1).take_while(|e| e.1 != 0).count();
+        // C: 1000 messages are available to task 0, task 1 is queued behind it: the number of receives task 0 makes
+        //    before task 1 gets its turn is the cooperative budget of one poll
+        let mut ev: Vec<Ins> = vec![Ins::Wake(1); 1000];
+        ev.push(Ins::Spawn(0));
+        ev.push(Ins::Spawn(1));
+        let s = Script {
+            tasks: vec![(0, false, vec![Ins::Wait(1); 1000]), (1, false, vec![])],
+            events: vec![(1000, ev), (1_000_000_000, vec![])],
+        };
+        let (_, log) = simulate(&s);
+        let c = log.iter().take_while(|e| e.1 != 1).count().saturating_sub(1);
+        (l, e, c)
+    })
+}
+
+pub fn exec(input: &str) -> String {
+    let mut out = String::new();
+    for (header, body) in cases(input) {
+        writeln!(out, "{header}").unwrap();
+        let (script, _) = parse(&body);
+        for line in &body {
+            if line.split_whitespace().next() == Some("run") {
+                let (l, e, c) = budgets();
+                let (res, log) = simulate(&script);
+                let mut s = String::new();
+                let mut last: Option<u64> = None;
+                for (t, tag) in &log {
+                    if last == Some(*t) {
+                        write!(s, ",{tag}").unwrap();
+                    } else {
+                        if last.is_some() {
+                            s.push(';');
+                        }
+                        write!(s, "{t}:{tag}").unwrap();
+                        last = Some(*t);
+                    }
+                }
+                if s.is_empty() {
+                    s.push('-');
+                }
+                writeln!(out, "run -> L={l} E={e} C={c} res={res} log={s}").unwrap();
+            } else {
+                writeln!(out, "{line}").unwrap();
+            }
+        }
+        writeln!(out, "end").unwrap();
+    }
+    out
+}
+
+// ----------------------------------------------------------------------------------------- generator
+
+const NS: [u64; 8] = [1, 2, 60, 61, 62, 63, 200, 2000];
+
+struct G {
+    r: Rng,
+    tasks: Vec<(u32, bool, Vec<String>)>,
+    next_tag: u32,
+    next_cond: u32,
+}
+
+impl G {
+    fn tag(&mut self) -> u32 {
+        self.next_tag += 1;
+        self.next_tag
+    }
+    /// a fresh condition; Notify (k % 3 == 2) only when it will be woken at most once
+    fn cond(&mut self, single_wake: bool) -> u32 {
+        loop {
+            self.next_cond += 1;
+            if self.next_cond % 3 != 2 || single_wake {
+                return self.next_cond;
+            }
+        }
+    }
+    fn kind(&mut self, mode: u64) -> bool {
+        match mode {
+            0 => false,
+            1 => true,
+            _ => self.r.chance(1, 2),
+        }
+    }
+    fn task(&mut self, loc: bool, prog: Vec<String>) -> u32 {
+        let t = self.tag();
+        self.tasks.push((t, loc, prog));
+        t
+    }
+}
+
+fn rep(ins: String, n: u64) -> String {
+    if n == 1 {
+        ins
+    } else {
+        format!("{ins}*{n}")
+    }
+}
+
+pub fn gen(seed: u64, count: usize, thorough: bool) -> String {
+    let mut r = Rng::new(seed);
+    let mut out = String::new();
+    for id in 0..count {
+        let mut g = G { r: r.fork(), tasks: Vec::new(), next_tag: 0, next_cond: 0 };
+        // handler programs of the (1..3) "work" events; a late, unrelated event follows
+        let nev = g.r.range(1, 3) as usize;
+        let mut evs: Vec<Vec<String>> = vec![Vec::new(); nev];
+        // 0 tokio::spawn only, 1 spawn_local only, 2 mixed
+        let mode = match g.r.below(8) {
+            0..=2 => 0,
+            3..=4 => 1,
+            _ => 2,
+        };
+        let nfam = g.r.range(1, 3);
+        // size class: mostly small so that thousands of cases run; the budget boundary sizes regularly
+        let big = g.r.chance(1, if thorough { 4 } else { 12 });
+        for _ in 0..nfam {
+            let e = g.r.below(nev as u64) as usize;
+            let n = if big {
+                *g.r.pick(&NS)
+            } else if g.r.chance(1, 6) {
+                *g.r.pick(&NS[2..6])
+            } else {
+                g.r.range(1, 8)
+            };
+            match g.r.below(7) {
+                0 => {
+                    // burst: n tasks ready at once
+                    for _ in 0..n {
+                        let loc = g.kind(mode);
+                        let t = g.task(loc, vec![]);
+                        evs[e].push(format!("s{t}"));
+                    }
+                }
+                1 => {
+                    // burst of waiters released together by a later instruction of the same or a later event
+                    let e2 = g.r.range(e as u64, nev as u64 - 1) as usize;
+                    let mut wakes = Vec::new();
+                    for _ in 0..n.min(300) {
+                        let loc = g.kind(mode);
+                        let k = g.cond(true);
+                        let t = g.task(loc, vec![format!("a{k}")]);
+                        evs[e].push(format!("s{t}"));
+                        wakes.push(format!("w{k}"));
+                    }
+                    evs[e2].extend(wakes);
+                }
+                2 => {
+                    // wake chain of depth d: handler wakes the first, each wakes the next
+                    let d = n.min(400);
+                    let conds: Vec<u32> = (0..=d).map(|_| g.cond(true)).collect();
+                    for i in 0..d as usize {
+                        let loc = g.kind(mode);
+                        let t = g.task(loc, vec![format!("a{}", conds[i]), format!("w{}", conds[i + 1])]);
+                        evs[0].push(format!("s{t}"));
+                    }
+                    let loc = g.kind(mode);
+                    let t = g.task(loc, vec![format!("a{}", conds[d as usize])]);
+                    evs[0].push(format!("s{t}"));
+                    evs[e].push(format!("w{}", conds[0]));
+                }
+                3 => {
+                    // fan-in: m producers each send once (or the handler sends m), one consumer receives m in a row
+                    let m = if big { *g.r.pick(&[3u64, 100, 127, 128, 129, 300]) } else { g.r.range(2, 6) };
+                    let k = g.cond(false);
+                    let loc = g.kind(mode);
+                    let c = g.task(loc, vec![rep(format!("a{k}"), m)]);
+                    evs[0].push(format!("s{c}"));
+                    if g.r.chance(1, 2) {
+                        evs[e].push(rep(format!("w{k}"), m));
+                    } else {
+                        for _ in 0..m {
+                            let loc = g.kind(mode);
+                            let p = g.task(loc, vec![format!("w{k}")]);
+                            evs[e].push(format!("s{p}"));
+                        }
+                    }
+                }
+                4 => {
+                    // join tree: parent spawns c children (which may wait for a wake) and joins them all
+                    let c = n.min(150);
+                    let ploc = g.kind(mode);
+                    let mut prog = Vec::new();
+                    let mut joins = Vec::new();
+                    let e2 = g.r.range(e as u64, nev as u64 - 1) as usize;
+                    for _ in 0..c {
+                        // a local child may only be spawned from a local parent
+                        let loc = if ploc { g.kind(mode) } else { false };
+                        let child = if g.r.chance(1, 3) {
+                            let k = g.cond(true);
+                            evs[e2].push(format!("w{k}"));
+                            g.task(loc, vec![format!("a{k}")])
+                        } else {
+                            g.task(loc, vec![])
+                        };
+                        prog.push(format!("s{child}"));
+                        joins.push(format!("j{child}"));
+                    }
+                    prog.extend(joins);
+                    let p = g.task(ploc, prog);
+                    evs[e].push(format!("s{p}"));
+                }
+                5 => {
+                    // yielding tasks, interleaved with a wake so that the order of the re-queueing shows
+                    for _ in 0..n.min(70) {
+                        let loc = g.kind(mode);
+                        let y = g.r.range(1, 3);
+                        let k = g.cond(true);
+                        let t = g.task(loc, vec![rep("y".into(), y), format!("w{k}")]);
+                        let loc2 = g.kind(mode);
+                        let u = g.task(loc2, vec![format!("a{k}"), "y".into()]);
+                        evs[e].push(format!("s{t}"));
+                        evs[0].push(format!("s{u}"));
+                    }
+                }
+                _ => {
+                    // ping-pong between two tasks through semaphores / channels, d rounds
+                    let d = n.min(200);
+                    let (ka, kb) = (g.cond(false), g.cond(false));
+                    let la = g.kind(mode);
+                    let lb = g.kind(mode);
+                    let mut pa = Vec::new();
+                    let mut pb = Vec::new();
+                    for _ in 0..d {
+                        pa.push(format!("a{ka}"));
+                        pa.push(format!("w{kb}"));
+                        pb.push(format!("a{kb}"));
+                        pb.push(format!("w{ka}"));
+                    }
+                    let a = g.task(la, pa);
+                    let b = g.task(lb, pb);
+                    evs[0].push(format!("s{a}"));
+                    evs[0].push(format!("s{b}"));
+                    evs[e].push(format!("w{ka}"));
+                }
+            }
+        }
+        writeln!(out, "case {id}").unwrap();
+        for (t, loc, prog) in &g.tasks {
+            writeln!(out, "task {t} {} {}", if *loc { "loc" } else { "rt" }, prog.join(" ")).unwrap();
+        }
+        let mut t = 0u64;
+        for ev in &evs {
+            t += *g.r.pick(&[1u64, 1000, 1_000_000, 2_500_000_000]);
+            writeln!(out, "ev {t} {}", ev.join(" ")).unwrap();
+        }
+        // the late unrelated events that make left-behind work visible
+        let nl = g.r.range(1, 2);
+        for _ in 0..nl {
+            t += 100_000_000_000;
+            writeln!(out, "ev {t}").unwrap();
+        }
+        writeln!(out, "run").unwrap();
+        writeln!(out, "end").unwrap();
+    }
+    out
 }
